@@ -91,6 +91,12 @@ def boundary_patterns(n):
             '5' + '0' * (n - 2) + '1', '1234567890123456789'[:n]]
 
 
+def mantissa_bits(typ, tier):
+    if tier == 'quick':
+        return 4
+    return 8 if typ == 'SINGLE' else 6        # cut: DOUBLE planned 8
+
+
 def float_blocks(typ, tier):
     """descriptors for SINGLE / DOUBLE"""
     mb, emin, emax, _, _ = GEOM[typ]
@@ -100,18 +106,24 @@ def float_blocks(typ, tier):
     ks = list(dec_exponents(typ))
     for i in range(0, len(ks), 64):
         blocks.append((typ, 'pow10', ks[i], ks[min(i + 64, len(ks)) - 1] + 1))
-    B = 4 if tier == 'quick' else 8
+    B = mantissa_bits(typ, tier)
     step = max(1, 512 >> (B - 1))
     for lo in range(emin, emax + 2 - B, step):
         blocks.append((typ, 'mantissa', B, lo, min(lo + step, emax + 2 - B)))
     if typ == 'SINGLE':
-        D = 3 if tier == 'quick' else 4
-        dspec = [(D, ks[0], ks[-1] + 1)]
+        # cut (thorough): 4 digits only where the plain notation and its switch-over live
+        if tier == 'quick':
+            dspec = [(3, ks[0], ks[-1] + 1)]
+        else:
+            dspec = [(3, ks[0], ks[-1] + 1), (4, -5, 9)]
     else:
-        # cut: DOUBLE decimals at every exponent have one digit less than planned (2 / 3);
-        # the planned digit count (3 / 4) only where the plain notation and its switch-over live
-        D = 2 if tier == 'quick' else 3
-        dspec = [(D, ks[0], ks[-1] + 1), (D + 1, -8, 19)]
+        # cut: DOUBLE decimals at every exponent have fewer digits than planned (quick 1, thorough 3);
+        # more digits only where the plain notation and its switch-over live (and, in quick, 2 digits
+        # for 1e-40..1e40)
+        if tier == 'quick':
+            dspec = [(1, ks[0], ks[-1] + 1), (2, -40, 41), (3, -8, 19)]
+        else:
+            dspec = [(2, ks[0], ks[-1] + 1), (3, -40, 41), (4, -2, 8)]
     for D_, k0, k1 in dspec:
         per = 1 if D_ >= 4 else (4 if D_ == 3 else 16)
         for k in range(k0, k1, per):
@@ -196,7 +208,8 @@ def int_blocks(typ, tier):
         return [(typ, 'all', lo, min(lo + 1024, 32769)) for lo in range(0, 32769, 1024)]
     B = 4 if tier == 'quick' else 8
     D = 3 if tier == 'quick' else 4
-    return [(typ, 'pow2'), (typ, 'pow10'), (typ, 'mantissa', B), (typ, 'decimal', D), (typ, 'limits')]
+    return ([(typ, 'pow2'), (typ, 'pow10'), (typ, 'mantissa', B), (typ, 'limits')] +
+            [(typ, 'decimal', D, k) for k in range(0, 10)])
 
 
 def _expand_int(block):
@@ -217,9 +230,9 @@ def _expand_int(block):
             for m in range(1 << (B - 1), 1 << B):
                 out.append(m << s)
     elif cls == 'decimal':
-        D = block[2]
-        for k in range(0, 10):
-            for m in range(1, 10 ** D):
+        D, k = block[2], block[3]
+        for m in range(1, 10 ** D):
+            if k == 0 or m % 10:          # m0 x 10^k is listed under k+1
                 out.append(m * 10 ** k)
     elif cls == 'limits':
         out = [0, 1, 32767, 32768, 32769, 65535, 65536, 2 ** 31 - 2, 2 ** 31 - 1, 2 ** 31,
